@@ -228,6 +228,13 @@ func (w *identWalker) wraps(fn *ssa.Function, e errIdent, depth int, seen map[*s
 						out = append(out, fmt.Sprintf("%s: %s returns %s(...) built from the error of %s, which can be %s", w.p.InstrPos(c), ir.FuncName(fn), name, ir.CalleeName(src), e))
 					}
 				}
+				// ... or built from a value of the tested identity created right here
+				// (errors.Wrapf(NewConflictingVoteError(..), ..), fmt.Errorf("..: %v", ErrSentinel))
+				for _, a := range c.Call.Args {
+					if holdsIdentity(a, e, 0) {
+						out = append(out, fmt.Sprintf("%s: %s returns %s(...) built from a %s created in place", w.p.InstrPos(c), ir.FuncName(fn), name, e))
+					}
+				}
 			}
 		}
 	}
@@ -383,6 +390,40 @@ func buildsErrorFromParam(fn *ssa.Function, depth int) bool {
 		}
 		for _, a := range c.Call.Args {
 			if derives(a, 0) {
+				return true
+			}
+		}
+	}
+	return false
+}
+
+// holdsIdentity: v is (an interface holding, or a vararg list containing) a value of the identity:
+// a concrete value of the asserted type, or the sentinel itself.
+func holdsIdentity(v ssa.Value, e errIdent, d int) bool {
+	if d > 6 || v == nil {
+		return false
+	}
+	switch x := v.(type) {
+	case *ssa.MakeInterface:
+		if e.typ != nil && types.Identical(x.X.Type(), e.typ) {
+			return true
+		}
+		return holdsIdentity(x.X, e, d+1)
+	case *ssa.ChangeInterface:
+		return holdsIdentity(x.X, e, d+1)
+	case *ssa.UnOp:
+		if g, ok := x.X.(*ssa.Global); ok && x.Op == token.MUL && e.glob == g {
+			return true
+		}
+	case *ssa.Phi:
+		for _, ed := range x.Edges {
+			if holdsIdentity(ed, e, d+1) {
+				return true
+			}
+		}
+	case *ssa.Slice:
+		for _, a := range varargValues(x) {
+			if holdsIdentity(a, e, d+1) {
 				return true
 			}
 		}
